@@ -167,9 +167,24 @@ pub fn worker_main(make: impl FnOnce(&str, &str) -> Box<dyn Engine>) {
         let case = if v.get("case").is_some() { v["case"].clone() } else { v.clone() };
         ctx.replaying = true;
         start_watchdog(budget_ms, wall_ms);
-        begin_case(u64::MAX);
-        engine.replay(&case, &mut ctx);
-        end_case();
+        // state that the code under test keeps across calls (a cache, a static): a case may only fail after earlier cases ran in the
+        // same process. --warmup runs the listed case indices first (their violations are dropped), --repeat runs the case several times.
+        if let Some(w) = arg(&args, "--warmup") {
+            for i in w.split(',').filter_map(|x| x.parse::<u64>().ok()) {
+                if i < engine.total() {
+                    begin_case(i);
+                    engine.run(i, &mut ctx);
+                    end_case();
+                }
+            }
+            ctx.pending.clear();
+        }
+        let repeat: u32 = arg(&args, "--repeat").and_then(|s| s.parse().ok()).unwrap_or(1);
+        for _ in 0..repeat.max(1) {
+            begin_case(u64::MAX);
+            engine.replay(&case, &mut ctx);
+            end_case();
+        }
         let viols: Vec<Value> = ctx.pending.iter().map(|(s, o)| json!({"sig": s, "observed": o})).collect();
         println!("{}", json!({"t":"replay","violations": viols, "counters": ctx.counters}));
         return;
